@@ -4,7 +4,7 @@ from __future__ import annotations
 
 import ast
 
-from ..core.cfg import CFG
+from ..core.cfg import CFG, assigned_on_every_path
 from ..core.repo import (AnalysisError, Repo, call_name, calls_in, definitions, dotted, func_params, is_const,
                          kwarg, names_in, unparse, walk_no_nested_defs)
 from ..domains.algnf import NotArithmetic, Rat, from_ast
@@ -203,12 +203,35 @@ def run(check, repo: Repo) -> None:
     ln = any(isinstance(n, ast.If) and "len(weights) != self.num_probes" in unparse(n.test) and any(isinstance(x, ast.Raise) for x in n.body) for n in ast.walk(st))
     check.decide(ln, "C10-R3", "initial_probe_weights: one weight per mode is enforced", "", pmod.line(st), fail_detail="no length check against num_probes")
 
+    # ---- R4 per-call inputs reach the state they scale / constrain ------------------------------------------------------------------
+    PT_ = "quantem.diffractive_imaging.ptychography"
+    pbm, sip = repo.func(f"{PM}:ProbeBase.set_initial_probe")
+    check.analysed(f"{PM}:ProbeBase.set_initial_probe", f"{PT_}:Ptychography.reconstruct")
+    mparam = "mean_diffraction_intensity"
+    if mparam not in func_params(sip):
+        raise AnalysisError("ProbeBase.set_initial_probe: parameter mean_diffraction_intensity not found")
+    ok, via, scfg = assigned_on_every_path(sip, lambda t: dotted(t) in ("self.mean_diffraction_intensity", "self._mean_diffraction_intensity"))
+    from_param = all(mparam in names_in(scfg.nodes[v].stmt.value) for v in via)
+    check.decide(ok and from_param, "C10-R4", "set_initial_probe stores this call's mean diffraction intensity on every path", f"{len(via)} assigning statements", pbm.line(sip),
+                 fail_detail="a path through set_initial_probe keeps a previously stored mean_diffraction_intensity (or stores another value): a re-initialised probe is scaled to the old "
+                             "total intensity — the probe's diffraction intensity no longer equals the dataset's mean intensity")
+    tmod_, rec_ = repo.func(f"{PT_}:Ptychography.reconstruct")
+    rcfg_ = CFG(rec_)
+    cst = [n.id for n in rcfg_.nodes if n.kind == "stmt" and isinstance(n.stmt, ast.Assign) and any(dotted(t) == "self.constraints" for t in n.stmt.targets)]
+    resets = [n for c in calls_in(rec_) if (call_name(c) or "") == "self.reset_recon" for n in rcfg_.node_containing(c)]
+    if not cst or not resets:
+        raise AnalysisError("Ptychography.reconstruct: `self.constraints = …` / `self.reset_recon()` not found")
+    late = [r for r in resets for c_ in cst if r in rcfg_.reachable_from(c_)]
+    check.decide(not late and "constraints" in names_in(rcfg_.nodes[cst[0]].stmt.value), "C10-R4",
+                 "reconstruct installs the requested constraints after the reset (the reset restores default constraints)", "", tmod_.line(rcfg_.nodes[cst[0]].stmt),
+                 fail_detail="self.reset_recon() can run after `self.constraints = constraints`: with reset=True the constraints requested for this call are wiped before the first iteration — "
+                             "e.g. identical_slices / positivity are not applied")
+
 
 def _mul(e: ast.AST) -> list[ast.AST]:
     if isinstance(e, ast.BinOp) and isinstance(e.op, ast.Mult):
         return _mul(e.left) + _mul(e.right)
     return [e]
-
 
 
 def gram_schmidt_rules(check, repo: Repo) -> None:
